@@ -295,3 +295,132 @@ func (p *Prog) ltFact(x, y ast.Expr, val bool) Fact {
 	x, y = unparen(x), unparen(y)
 	return Fact{Key: "(" + p.Canon(x) + " < " + p.Canon(y) + ")", Val: val, Op: "<", X: x, Y: y, deps: p.MentionsOf(x, y)}
 }
+
+// RoleCanon renders e like Canon, but names every local variable by what it
+// is — receiver, parameter position, the call whose result it holds, or its
+// type — instead of by its spelling; a boolean local defined by a
+// side-effect-free expression is replaced by that expression. Keys built from
+// it survive renaming locals and naming or un-naming intermediate conditions.
+func (p *Prog) RoleCanon(f *Func, e ast.Expr) string {
+	return p.roleCanon(f, e, 0)
+}
+
+func (p *Prog) roleCanon(f *Func, e ast.Expr, depth int) string {
+	s := stripVarLines(p.Canon(e))
+	repl := map[string]string{}
+	ast.Inspect(e, func(n ast.Node) bool {
+		if _, isLit := n.(*ast.FuncLit); isLit {
+			return false
+		}
+		id, ok := n.(*ast.Ident)
+		if !ok {
+			return true
+		}
+		v, ok := p.ObjOf(id).(*types.Var)
+		if !ok || v.IsField() || v.Pkg() == nil || v.Parent() == v.Pkg().Scope() {
+			return true
+		}
+		if _, done := repl["$"+v.Name()]; !done {
+			repl["$"+v.Name()] = p.roleOf(f, id, v, depth)
+		}
+		return true
+	})
+	if len(repl) == 0 {
+		return s
+	}
+	var b strings.Builder
+	for i := 0; i < len(s); {
+		if s[i] != '$' {
+			b.WriteByte(s[i])
+			i++
+			continue
+		}
+		j := i + 1
+		for j < len(s) && (s[j] == '_' || s[j] >= '0' && s[j] <= '9' || s[j] >= 'a' && s[j] <= 'z' || s[j] >= 'A' && s[j] <= 'Z' || s[j] >= 0x80) {
+			j++
+		}
+		if r, ok := repl[s[i:j]]; ok {
+			b.WriteString(r)
+		} else {
+			b.WriteString(s[i:j])
+		}
+		i = j
+	}
+	return b.String()
+}
+
+func (p *Prog) roleOf(f *Func, use *ast.Ident, v *types.Var, depth int) string {
+	up := ""
+	for fn := f; fn != nil; fn = fn.Parent {
+		if fn.Decl != nil && fn.Decl.Recv != nil {
+			for _, fl := range fn.Decl.Recv.List {
+				for _, n := range fl.Names {
+					if p.ObjOf(n) == v {
+						return "recv"
+					}
+				}
+			}
+		}
+		if fn.Type != nil && fn.Type.Params != nil {
+			i := 0
+			for _, fl := range fn.Type.Params.List {
+				for _, n := range fl.Names {
+					if p.ObjOf(n) == v {
+						return fmt.Sprintf("%sparam%d", up, i)
+					}
+					i++
+				}
+				if len(fl.Names) == 0 {
+					i++
+				}
+			}
+		}
+		up += "outer."
+	}
+	d, ok := p.reachingDef(f, use, v)
+	if !ok {
+		d, ok = p.SingleDef(f, v)
+	}
+	if ok && d.Rhs != nil {
+		switch x := unparen(d.Rhs).(type) {
+		case *ast.CallExpr:
+			if n := p.CalleeName(x); n != "" {
+				return fmt.Sprintf("%s#%d", n, d.Index)
+			}
+		case *ast.TypeAssertExpr:
+			return fmt.Sprintf("assert<%s>#%d", typeStr(p.TypeOf(x.Type)), d.Index)
+		}
+		if depth < 3 && pureBoolExpr(d.Rhs) {
+			if b, isB := v.Type().Underlying().(*types.Basic); isB && b.Kind() == types.Bool {
+				return p.roleCanon(f, d.Rhs, depth+1)
+			}
+		}
+	}
+	return "local<" + typeStr(v.Type()) + ">"
+}
+
+// negateText: the canonical text of the negation of a condition rendered by Canon / RoleCanon.
+func negateText(c string) string {
+	if strings.HasPrefix(c, "!") {
+		return c[1:]
+	}
+	if !strings.ContainsAny(c, " ") {
+		return "!" + c
+	}
+	if len(c) > 1 && c[0] == '(' {
+		depth := 0
+		for i := 0; i < len(c); i++ {
+			switch c[i] {
+			case '(':
+				depth++
+			case ')':
+				depth--
+				if depth == 0 && i < len(c)-1 {
+					return "!(" + c + ")"
+				}
+			}
+		}
+		return "!" + c
+	}
+	return "!(" + c + ")"
+}
